@@ -65,6 +65,10 @@ func c07Corpus(w *Worker, base []*genCase) []*genCase {
 		}
 		alls := gen.AllS(c.Spec)
 		add(alls, gen.UseAll)
+		if fam {
+			// the same with a nested parse inside every action (values of the outer parse must not change)
+			out = append(out, &genCase{Origin: c.Origin + " [nested parses]", Spec: c.Spec, Tags: alls, Shape: gen.UseAll, Nested: true})
+		}
 		alln := gen.Tags{}
 		for _, s := range syms {
 			alln[s] = "n"
